@@ -36,6 +36,26 @@
 
 #include <symengine/dict.h>
 
+#ifdef SYMENGINE_VERIF
+// Verification hook (off unless SYMENGINE_VERIF is defined): number of live
+// `Basic` objects, incremented in Basic() and decremented in ~Basic().
+#include <atomic>
+#define SYMENGINE_VERIF_LIVE_OBJECTS 1
+namespace SymEngine
+{
+inline std::atomic<long> &verif_live_counter_()
+{
+    static std::atomic<long> counter{0};
+    return counter;
+}
+//! Number of `Basic` objects currently alive (verification builds only)
+inline long verif_live_objects()
+{
+    return verif_live_counter_().load();
+}
+} // namespace SymEngine
+#endif
+
 //! Main namespace for SymEngine package
 namespace SymEngine
 {
@@ -116,11 +136,22 @@ public:
         return type_code_;
     };
 #endif
+#ifdef SYMENGINE_VERIF
+    Basic() : hash_{0}
+    {
+        ++verif_live_counter_();
+    }
+    virtual ~Basic()
+    {
+        --verif_live_counter_();
+    }
+#else
     //! Constructor
     Basic() : hash_{0} {}
     // Destructor must be explicitly defined as virtual here to avoid problems
     // with undefined behavior while deallocating derived classes.
     virtual ~Basic() {}
+#endif
 
     //! Delete the copy constructor and assignment
     Basic(const Basic &) = delete;
